@@ -98,3 +98,16 @@ Theorem C07_source_thin_bodies :
   thin_of "FromIterator<T> for GenericArray<T,N>" "from_iter" = Some "match Self :: try_from_iter (iter) { Ok (res) => res , Err (_) => from_iter_length_fail (N :: USIZE) , }" /\
   thin_of "FromIterator<T> for Box<GenericArray<T,N>>" "from_iter" = Some "match GenericArray :: try_boxed_from_iter (iter) { Ok (res) => res , Err (_) => crate :: from_iter_length_fail (N :: USIZE) , }".
 Proof. repeat split. Qed.
+
+(* ---- T2: the bounds of the trait impls this property's operations come from, as they stand in the source now
+        (coq/gen/GenSigs.v gen_impl_bounds): code that is generic over the lengths / element type and states
+        exactly these bounds can call them ---- *)
+From Coq Require Import String.
+From GA Require Import SigDefs.
+From GAGen Require Import GenSigs.
+Local Open Scope string_scope.
+
+Theorem C07_source_impl_bounds :
+  bounds_of "FromIterator<T> for GenericArray<T,N>" = Some ["N:ArrayLength"] /\
+  bounds_of "FromIterator<T> for Box<GenericArray<T,N>>" = Some ["N:ArrayLength"].
+Proof. repeat split. Qed.
